@@ -1,9 +1,9 @@
 package main
 
 import (
-	"go/types"
 	"fmt"
 	"go/token"
+	"go/types"
 	"regexp"
 	"sort"
 	"strings"
@@ -373,8 +373,8 @@ func c05Tasks(c *Ctx, prune *ssa.Function) {
 		switch x := cond.(type) {
 		case *ssa.BinOp:
 			if _, f, _, ok := FieldOf(x.X); ok && nameIn(f, []string{"FetchRecentRefsDays", "FetchRecentCommitsDays"}) {
-				if k, isK := ConstInt(x.Y); isK && k == 0 && x.Op == token.GTR {
-					return true
+				if k, isK := ConstInt(x.Y); isK && k == 0 && (x.Op == token.GTR || x.Op == token.LEQ) {
+					return true // days > 0 (run) or its negation days <= 0 (skip)
 				}
 			}
 			if _, _, ok := IsErrNilCheck(x); ok {
@@ -417,6 +417,16 @@ func c05Tasks(c *Ctx, prune *ssa.Function) {
 					}
 					if strings.HasSuffix(d.Comment, ".loop") {
 						continue // loop header condition
+					}
+					if IsRelayPhi(cond) {
+						// repeats a decision taken earlier (result flag of an expanded helper): the conditions
+						// behind it are examined where they are tested
+						if extra := relayedDecision(f, ifi.Cond, r0[b], 0); extra != nil {
+							for _, dc := range extra {
+								c.Check(allowedGuard(dc.Cond) || IsRelayPhi(dc.Cond), "R3", "skip-condition:"+FnName(f)+"->"+callee+":"+describeCond(dc.Cond), p.InstrPos(dc.If), "documented skip condition", "a retention sub-task is started only under a condition that is not one of the documented flags ("+describeCond(dc.Cond)+"): objects it would retain can be pruned")
+							}
+							continue
+						}
 					}
 					c.Check(allowedGuard(cond), "R3", "skip-condition:"+FnName(f)+"->"+callee+":"+describeCond(cond), p.InstrPos(ifi), "documented skip condition", "a retention sub-task is started only under a condition that is not one of the documented flags ("+describeCond(cond)+"): objects it would retain can be pruned")
 				}
